@@ -6,6 +6,7 @@ import (
 	"context"
 	"fmt"
 	"sort"
+	"strings"
 	"testing"
 
 	extv1 "k8s.io/apiextensions-apiserver/pkg/apis/apiextensions/v1"
@@ -203,32 +204,39 @@ func TestVerifC11WebhookCreate(t *testing.T) {
 	})
 }
 
+// c11RunUpdate runs validator.ValidateUpdate for one (old,new) pair on a fresh simulated API server.
+func c11RunUpdate(t *rapid.T, old, upd *c11gen.Case, claimCRDExists bool) (error, c11Outcome) {
+	s := c11NewSim()
+	// The CRDs the old XRD is served by. Their content is irrelevant: the validator replaces the spec.
+	s.MustCreate("setup", c11BareCRD(old.XRD, old.XRD.Name, old.XRD.Spec.Group, old.XRD.Spec.Names, extv1.ClusterScoped))
+	if cn := old.XRD.Spec.ClaimNames; cn != nil && cn.Plural != old.XRD.Spec.Names.Plural && claimCRDExists {
+		s.MustCreate("setup", c11BareCRD(old.XRD, cn.Plural+"."+old.XRD.Spec.Group, old.XRD.Spec.Group, *cn, extv1.NamespaceScoped))
+	}
+	v := &validator{client: s.Client("xrd-webhook")}
+	digest := s.Digest()
+	from := s.LogLen()
+	var err error
+	func() {
+		defer func() {
+			if r := recover(); r != nil {
+				t.Fatalf("PANIC in ValidateUpdate: %v\nold: %s\nnew: %s", r, c11gen.JSON(old.XRD), c11gen.JSON(upd.XRD))
+			}
+		}()
+		_, err = v.ValidateUpdate(context.Background(), old.XRD, upd.XRD)
+	}()
+	return err, c11Observe(t, s, digest, from)
+}
+
 func TestVerifC11WebhookUpdate(t *testing.T) {
-	rec := verifkit.New(t, "C11", "validator.ValidateUpdate on generated (old,new) XRD pairs with the old CRDs (claim CRD present or not) in the simulated API server; non-trivial = admitted; distinct = (old,new) JSON")
+	rec := verifkit.New(t, "C11", "validator.ValidateUpdate on generated (old,new) XRD pairs, live and terminating (deletionTimestamp + finalizers on both sides), with the old CRDs (claim CRD present or not) in the simulated API server; every pair is judged in both lifecycles and the verdicts must agree; non-trivial = admitted; distinct = (old,new) JSON")
 	rapid.Check(t, func(t *rapid.T) {
 		old := c11gen.XRD(t)
 		upd, m := c11gen.Update(t, old)
+		claimCRDExists := rapid.IntRange(0, 3).Draw(t, "claimcrdexists") != 0
 		rec.Eval()
-		s := c11NewSim()
-		// The CRDs the old XRD is served by. Their content is irrelevant: the validator replaces the spec.
-		s.MustCreate("setup", c11BareCRD(old.XRD, old.XRD.Name, old.XRD.Spec.Group, old.XRD.Spec.Names, extv1.ClusterScoped))
-		if cn := old.XRD.Spec.ClaimNames; cn != nil && cn.Plural != old.XRD.Spec.Names.Plural && rapid.IntRange(0, 3).Draw(t, "claimcrdexists") != 0 {
-			s.MustCreate("setup", c11BareCRD(old.XRD, cn.Plural+"."+old.XRD.Spec.Group, old.XRD.Spec.Group, *cn, extv1.NamespaceScoped))
+		if claimCRDExists && old.XRD.Spec.ClaimNames != nil {
 			rec.Label("update:claim-crd-exists")
 		}
-		v := &validator{client: s.Client("xrd-webhook")}
-		digest := s.Digest()
-		from := s.LogLen()
-		var err error
-		func() {
-			defer func() {
-				if r := recover(); r != nil {
-					t.Fatalf("PANIC in ValidateUpdate: %v\nold: %s\nnew: %s", r, c11gen.JSON(old.XRD), c11gen.JSON(upd.XRD))
-				}
-			}()
-			_, err = v.ValidateUpdate(context.Background(), old.XRD, upd.XRD)
-		}()
-		out := c11Observe(t, s, digest, from)
 		var changed []string
 		for f, b := range map[string]bool{"group": m.Group, "kind": m.Kind, "plural": m.Plural, "claim kind": m.ClaimKind, "claim plural": m.ClaimPlural} {
 			if b {
@@ -236,14 +244,34 @@ func TestVerifC11WebhookUpdate(t *testing.T) {
 			}
 		}
 		sort.Strings(changed)
-		c11Judge(t, rec, "update", upd, changed, err, out)
+
+		// The same update is submitted for a live XRD and for one that is being deleted but still holds its
+		// finalizers (its controllers still reconcile it and still render CRDs from it). Each is judged by the
+		// same oracle, and the two verdicts must agree.
+		verdict := map[string]error{}
+		for _, lc := range []string{"update", "update-terminating"} {
+			o, u := old, upd
+			if lc == "update-terminating" {
+				o, u = c11gen.Terminate(old), c11gen.Terminate(upd)
+			}
+			err, out := c11RunUpdate(t, o, u, claimCRDExists)
+			c11Judge(t, rec, lc, u, changed, err, out)
+			if err != nil && len(changed) > 0 && !strings.Contains(err.Error(), "immutable") {
+				t.Fatalf("%s refused, but not because %v is immutable: %v", lc, changed, err)
+			}
+			verdict[lc] = err
+			if err == nil {
+				rec.NonTrivial(c11gen.JSON([]any{o.XRD, u.XRD}), func() any {
+					return map[string]any{"lifecycle": lc, "mutation": m, "submitted": fmt.Sprint(len(out.submitted))}
+				})
+			}
+		}
+		if live, term := verdict["update"], verdict["update-terminating"]; (live == nil) != (term == nil) {
+			t.Fatalf("the same update is judged differently for a terminating XRD (deletionTimestamp set, finalizers held): live => %v, terminating => %v\nold: %s\nnew: %s",
+				live, term, c11gen.JSON(old.XRD), c11gen.JSON(upd.XRD))
+		}
 		if m.ClaimAdded {
 			rec.Label("update:claim-added")
-		}
-		if err == nil {
-			rec.NonTrivial(c11gen.JSON([]any{old.XRD, upd.XRD}), func() any {
-				return map[string]any{"mutation": m, "submitted": fmt.Sprint(len(out.submitted))}
-			})
 		}
 	})
 }
